@@ -252,6 +252,8 @@
 
 #[cfg(flurry_verif)]
 pub mod verif;
+#[cfg(flurry_verif)]
+pub use map::verif_inspect as map_verif;
 
 mod map;
 mod map_ref;
